@@ -306,11 +306,14 @@ type ShutCase struct {
 	Scenarios []ShutScn `json:"scenarios"`
 }
 
-func genShutScn(t *rapid.T) ShutScn {
+// genShutScn draws scenario i of a batch; the phases rotate through the batch (from a drawn offset) so that every
+// batch of 8 contains every phase at least once.
+func genShutScn(t *rapid.T, i, offset int) ShutScn {
+	cycle := []string{"backend", "failing", "listed", "uploading", "idle", "backend", "failing", "backend"}
 	s := ShutScn{
 		Signal: rapid.SampledFrom([]string{"INT", "TERM"}).Draw(t, "signal"),
-		GraceS: rapid.SampledFrom([]int{0, 1, 2, 3}).Draw(t, "grace"),
-		Phase:  rapid.SampledFrom([]string{"idle", "listed", "backend", "failing", "backend", "uploading", "backend", "failing"}).Draw(t, "phase"),
+		GraceS: rapid.SampledFrom([]int{1, 2, 3, 0}).Draw(t, "grace"),
+		Phase:  cycle[(i+offset)%len(cycle)],
 	}
 	s.SignalMs = rapid.SampledFrom([]int{50, 100, 200}).Draw(t, "signalAfter")
 	switch rapid.IntRange(0, 2).Draw(t, "lat") {
@@ -515,8 +518,9 @@ func runShutScn(s *ShutScn) (o vh.Outcome) {
 func TestPropShutdown(t *testing.T) {
 	vh.Rapid(t, vh.Scale(3, 30), func(rt *rapid.T) {
 		var c ShutCase
+		offset := rapid.IntRange(0, 7).Draw(rt, "phaseOffset")
 		for i := 0; i < 8; i++ {
-			c.Scenarios = append(c.Scenarios, genShutScn(rt))
+			c.Scenarios = append(c.Scenarios, genShutScn(rt, i, offset))
 		}
 		recS.Check(rt, &c, func() vh.Outcome { return runBatch(recS, c.Scenarios, runShutScn) })
 	})
